@@ -175,3 +175,21 @@ func (a *Agent) VerifICMPHandler() *icmp.Handler { return a.icmpHandler }
 func (a *Agent) VerifNewMeshConn(peerID identity.AgentID, streamID uint64, s *stream.Stream) net.Conn {
 	return &meshConn{agent: a, stream: s, peerID: peerID, streamID: streamID}
 }
+
+// VerifUDPIngressStreams returns the keys of the two UDP ingress tables:
+// udpIngressByLocalStream (mesh stream id -> destination association; this is
+// where UDP_DATAGRAM replies are looked up) and udpIngressByBase (SOCKS5
+// association id), both sorted.
+func (a *Agent) VerifUDPIngressStreams() (byLocal []uint64, byBase []uint64) {
+	a.udpIngressMu.RLock()
+	defer a.udpIngressMu.RUnlock()
+	for k := range a.udpIngressByLocalStream {
+		byLocal = append(byLocal, k)
+	}
+	for k := range a.udpIngressByBase {
+		byBase = append(byBase, k)
+	}
+	sort.Slice(byLocal, func(i, j int) bool { return byLocal[i] < byLocal[j] })
+	sort.Slice(byBase, func(i, j int) bool { return byBase[i] < byBase[j] })
+	return byLocal, byBase
+}
